@@ -84,8 +84,24 @@ class FakeStdout:
                 return val
             if kind == "set":
                 self.proc.client.set_protocol_version(val)
+                info = getattr(self.proc, "info", None)
+                c = self.proc.client
+                if info is not None and hasattr(c, "is_batching_enabled"):
+                    try:
+                        info.append({"set": val, "version": c.get_protocol_version(), "enabled": c.is_batching_enabled(),
+                                     "info": c.get_batching_info()})
+                    except Exception as ex:  # noqa
+                        info.append({"set": val, "raised": type(ex).__name__})
+            if kind == "close_stdin":
+                await self.proc.stdin.aclose()
             if kind == "sleep":  # the child is busy for `val` scheduling steps before its next output
                 await anyio.sleep(val * STEP)
+            if kind == "at":  # output at step `val` after the start of the case, injected by the loop itself
+                import asyncio  # (a scripted event, so the loop's tie order decides what a timer of the same instant sees)
+
+                ev = anyio.Event()
+                asyncio.get_running_loop().at(self.proc.t0 + val, ev.set)
+                await ev.wait()
         self.proc.eof = True
         return None
 
@@ -208,52 +224,172 @@ def _decode_writes(sends):
     return out
 
 
-async def _reader_case(mod, holder, case):
-    """case: {"events": [{"c": hex} | {"v": version|None}], ...}"""
-    import anyio
-
+def _script_of(events):
     script = []
-    for e in case["events"]:
+    for e in events:
         if "c" in e:
             script.append(("chunk", bytes.fromhex(e["c"])))
+        elif "s" in e:  # a text chunk (the reader accepts str chunks as well as bytes)
+            script.append(("chunk", e["s"]))
+        elif "sleep" in e:
+            script.append(("sleep", e["sleep"]))
+        elif "close_stdin" in e:  # the client's write side goes away while the child keeps talking
+            script.append(("close_stdin", None))
         else:
             script.append(("set", e["v"]))
-    proc = FakeProcess(script)
-    holder["proc"] = proc
+    return script
+
+
+def _open_client(mod, api):
+    """the three public ways to get a stdio connection; returns (context manager, get(entered) -> (client, read, write))"""
     from chuk_mcp.transports.stdio.parameters import StdioParameters
 
-    client = mod.StdioClient(StdioParameters(command="verif-fake-child", args=[]))
-    proc.client = client
-    delivered, notified = [], []
-    entered = False
-    eof = False
-    try:
-        async with client:
-            entered = True
-            read, _write = client.get_streams()
+    params = StdioParameters(command="verif-fake-child", args=[])
+    if api == "function":  # stdio_client(): only the two streams are handed out
+        cm = mod.stdio_client(params)
 
-            async def consume():
+        async def get(entered):
+            return None, entered[0], entered[1]
+        return cm, get
+    if api == "transport":  # StdioTransport wrapper
+        tmod = __import__("chuk_mcp.transports.stdio.transport", fromlist=["StdioTransport"])
+        t = tmod.StdioTransport(params)
+
+        async def get(entered):
+            r, w = await t.get_streams()
+            return t._client, r, w
+        return t, get
+    client = mod.StdioClient(params)
+
+    async def get(entered):
+        r, w = client.get_streams()
+        return client, r, w
+    return client, get
+
+
+async def _reader_session(mod, holder, case, cm, get, client_hint=None):
+    import anyio
+
+    opts = case.get("opts", {})
+    proc = FakeProcess(_script_of(case["events"]))
+    holder["proc"] = proc
+    proc.client = client_hint
+    delivered, notified, legacy, info = [], [], {}, []
+    eof = False
+    async with cm as entered:
+        client, read, write = await get(entered)
+        proc.client = client if client is not None else _NoClient()
+        if opts.get("api") == "transport":
+            proc.client = _ViaTransport(cm, client)
+        proc.info = info
+        pend = {}
+        if client is not None:
+            for rid in opts.get("pending", []):
+                pend[str(rid)] = client.new_request_stream(str(rid))
+            for rid in opts.get("pending_closed", []):
+                await client.new_request_stream(str(rid)).aclose()
+            if opts.get("notif_closed"):
+                await client.notifications.aclose()
+        if opts.get("close_write_first"):
+            await write.aclose()
+        if opts.get("read_closed"):  # the consumer of the read stream went away; the child keeps talking
+            await read.aclose()
+
+        async def consume():
+            if opts.get("consumer") == "slow":
+                async for m in read:
+                    delivered.append(m)
+                    await anyio.sleep(0.01)
+            else:
                 async for m in read:
                     delivered.append(m)
 
-            async with anyio.create_task_group() as tg:
+        async with anyio.create_task_group() as tg:
+            if opts.get("consumer") == "late":
+                await anyio.sleep(1.0)  # the reader fills the 100-slot read stream and has to wait
+            if not opts.get("read_closed"):
                 tg.start_soon(consume)
-                await anyio.sleep(1.0)  # virtual: returns once every other task is blocked or done
+            await anyio.sleep(30.0)  # virtual: returns once every other task is blocked or done
+            if client is not None and not opts.get("notif_closed"):
                 try:
                     while True:
                         notified.append(client.notifications.receive_nowait())
                 except (anyio.WouldBlock, anyio.EndOfStream, anyio.ClosedResourceError):
                     pass
-                eof = proc.eof  # before the client's own shutdown (which may drain the pipe)
-                tg.cancel_scope.cancel()
-    except Exception as ex:  # noqa
-        return {"harness_error": type(ex).__name__, "entered": entered}
+            for rid, st in pend.items():
+                got = []
+                try:
+                    while True:
+                        got.append(dump_msg(st.receive_nowait()))
+                except (anyio.WouldBlock, anyio.EndOfStream, anyio.ClosedResourceError):
+                    pass
+                legacy[rid] = got
+            eof = proc.eof  # before the client's own shutdown (which may drain the pipe)
+            tg.cancel_scope.cancel()
     return {
-        "delivered": [dump_msg(m) for m in delivered],
-        "notified": [dump_msg(m) for m in notified],
+        "delivered": None if opts.get("read_closed") else [dump_msg(m) for m in delivered],
+        "notified": [dump_msg(m) for m in notified] if (proc.client is not None and not isinstance(proc.client, _NoClient)
+                                                        and not opts.get("notif_closed")) else None,
         "writes": _decode_writes(proc.stdin.sends),
         "eof": eof,
+        "legacy": legacy,
+        "info": info,
     }
+
+
+class _ViaTransport:
+    """version changes go through the StdioTransport wrapper, everything else to the client behind it"""
+
+    def __init__(self, transport, client):
+        self._t, self._c = transport, client
+
+    def set_protocol_version(self, v):
+        self._t.set_protocol_version(v)
+
+    def __getattr__(self, name):
+        return getattr(self._c, name)
+
+
+class _NoClient:
+    def set_protocol_version(self, v):
+        raise RuntimeError("no client object with this API")
+
+
+async def _reader_case(mod, holder, case):
+    """case: {"events": [{"c": hex} | {"s": text} | {"v": version|None} | {"sleep": steps} | {"close_stdin": 1}],
+    "opts": {"api": "client"|"function"|"transport", "pending": [ids], "pending_closed": [ids], "notif_closed": bool,
+             "consumer": "eager"|"late"|"slow", "close_write_first": bool, "sessions": n}}
+    With "sessions": n > 1 the SAME client object is entered n times, the same script each time; the
+    observation is that of the last session plus "earlier": [observations]."""
+    opts = case.get("opts", {})
+    entered = False
+    try:
+        cm, get = _open_client(mod, opts.get("api", "client"))
+        n = int(opts.get("sessions", 1))
+        obs_all = []
+        for _ in range(n):
+            if opts.get("api") == "function" and obs_all:
+                cm, get = _open_client(mod, "function")  # a generator-based context manager is single-use
+            obs_all.append(await _reader_session(mod, holder, case, cm, get))
+        entered = True
+    except Exception as ex:  # noqa
+        return {"harness_error": type(ex).__name__, "entered": entered}
+    o = obs_all[-1]
+    if len(obs_all) > 1:
+        o["earlier"] = obs_all[:-1]
+    return o
+
+
+async def _send_items(client, write, items, build):
+    """put the items on the write stream: each object is built once and sent `repeat` times, through the
+    write stream or (via = send_json) the legacy `client.send_json`"""
+    for it in items:
+        obj = build(it)
+        for _ in range(int(it.get("repeat", 1))):
+            if it.get("via") == "send_json" and client is not None:
+                await client.send_json(obj)
+            else:
+                await write.send(obj)
 
 
 async def _writer_case(mod, holder, case, build):
@@ -271,15 +407,12 @@ async def _writer_case(mod, holder, case, build):
 
     proc.stdout._next = _wait_forever  # type: ignore[method-assign]
     holder["proc"] = proc
-    from chuk_mcp.transports.stdio.parameters import StdioParameters
-
-    client = mod.StdioClient(StdioParameters(command="verif-fake-child", args=[]))
-    proc.client = client
     try:
-        async with client:
-            _read, write = client.get_streams()
-            for it in case["items"]:
-                await write.send(build(it))
+        cm, get = _open_client(mod, case.get("api", "client"))
+        async with cm as entered:
+            client, _read, write = await get(entered)
+            proc.client = client
+            await _send_items(client, write, case["items"], build)
             await anyio.sleep(1.0)
             before_close = {"closed": proc.stdin.closed, "n": len(proc.stdin.sends)}
             if case.get("close", True):
@@ -299,13 +432,22 @@ async def _duplex_case(mod, holder, case, build):
     Observation: the `send()`s the child's stdin received, in order, and the close flag."""
     import anyio
 
+    import asyncio
+
     script = []
     for e in case.get("stdout", []):
         if "c" in e:
             script.append(("chunk", bytes.fromhex(e["c"])))
         elif "sleep" in e:
             script.append(("sleep", e["sleep"]))
+        elif "at" in e:
+            script.append(("at", int(e["at"])))
+    loop = asyncio.get_running_loop()
+    frac = (loop.time() * vloop.TICKS_PER_S) % 1.0
+    if frac:
+        await anyio.sleep((1.0 - frac) / vloop.TICKS_PER_S)  # start on a tick, so that step k of the case is a loop tick
     proc = FakeProcess(script)
+    proc.t0 = round(loop.time() * vloop.TICKS_PER_S)
     proc.stdin.drain_bytes = int(case.get("drain", 0))
     # after the script the child's stdout stays open (it is still running)
     never = anyio.Event()
@@ -313,22 +455,20 @@ async def _duplex_case(mod, holder, case, build):
 
     async def _next_then_wait():
         c = await inner_next()
-        if c is None:
+        if c is None and not case.get("stdout_eof"):  # stdout_eof: the child closes its stdout and keeps reading stdin
             await never.wait()
         return c
 
     proc.stdout._next = _next_then_wait  # type: ignore[method-assign]
     holder["proc"] = proc
-    from chuk_mcp.transports.stdio.parameters import StdioParameters
-
-    client = mod.StdioClient(StdioParameters(command="verif-fake-child", args=[]))
-    proc.client = client
     delivered = []
     try:
-        async with client:
+        cm, get = _open_client(mod, case.get("api", "client"))
+        async with cm as entered:
+            client, read, write = await get(entered)
+            proc.client = client
             if "set" in case:
-                client.set_protocol_version(case["set"])
-            read, write = client.get_streams()
+                (cm if case.get("api") == "transport" else client).set_protocol_version(case["set"])
 
             async def consume():
                 async for m in read:
@@ -336,8 +476,7 @@ async def _duplex_case(mod, holder, case, build):
 
             async with anyio.create_task_group() as tg:
                 tg.start_soon(consume)
-                for it in case["items"]:
-                    await write.send(build(it))
+                await _send_items(client, write, case["items"], build)
                 await anyio.sleep(120.0)  # virtual: everything that can happen has happened
                 before_close = {"closed": proc.stdin.closed, "n": len(proc.stdin.sends)}
                 if case.get("close", True):
@@ -371,6 +510,9 @@ def _restore(saved):
 
 
 def run_reader_cases(cases):
+    from . import stdio_cov
+
+    stdio_cov.start()
     mod = stdio_module()
     holder = {}
 
@@ -388,23 +530,38 @@ def run_reader_cases(cases):
 
 
 def run_duplex_cases(cases, build):
+    """cases may name the tie order of the virtual loop ("tie": "events" | "timers" | "io"): what happens
+    first when a scripted arrival and a timer of the code fall on the same instant"""
+    from . import stdio_cov
+
+    stdio_cov.start()
     mod = stdio_module()
     holder = {}
-
-    async def main():
-        out = []
-        for c in cases:
-            out.append(await _duplex_case(mod, holder, c, build))
-        return out
-
+    out = [None] * len(cases)
     saved = _patched(mod, holder)
     try:
-        return vloop.run(main)
+        for tie in ("events", "timers", "io"):
+            idx = [i for i, c in enumerate(cases) if c.get("tie", "events") == tie]
+            if not idx:
+                continue
+
+            async def main(idx=idx):
+                res = []
+                for i in idx:
+                    res.append(await _duplex_case(mod, holder, cases[i], build))
+                return res
+
+            for i, r in zip(idx, vloop.run(main, tie=tie)):
+                out[i] = r
+        return out
     finally:
         _restore(saved)
 
 
 def run_writer_cases(cases, build):
+    from . import stdio_cov
+
+    stdio_cov.start()
     mod = stdio_module()
     holder = {}
 
